@@ -19,20 +19,29 @@ Proof.
   apply Nat.leb_le in H. exists (sa sg - sa (env_sig e0)). repeat split; lia.
 Qed.
 
+Lemma stored_exactb_sound sg f : stored_exactb sg f = true -> stored_exact sg f.
+Proof.
+  unfold stored_exactb, stored_exact. destruct (vnode 0 f (vs0, vs0)) as [e0|]; [|discriminate].
+  intros H. exists e0. split; auto. apply sig_eqb_eq; auto.
+Qed.
+
 Theorem tree_okb_sound asm : forall n, tree_okb asm n = true -> tree_ok asm n.
 Proof.
   induction n using node_ind'; cbn [tree_okb tree_ok]; intros Hb; auto.
   - (* Run *) induction H as [|x t Hx Ht IH]; simpl in *; auto.
     apply andb_prop in Hb as [H1 H2]. split; auto. apply IH; auto.
   - (* Mod *)
-    apply andb_prop in Hb as [Hb H3]. apply andb_prop in Hb as [H1 H2].
-    split; [|split].
-    + destruct m; simpl in *; auto; discriminate.
+    apply andb_prop in Hb as [Hb H3]. apply andb_prop in Hb as [Hb H2x]. apply andb_prop in Hb as [H1 H2].
+    split; [|split; [|split]].
+    + reflexivity.
     + intros Hi. assert (Hi' : ignores_underb m = true) by (destruct m; simpl in *; auto; discriminate).
       rewrite Hi' in H2. simpl in H2. rewrite Forall_forall. rewrite forallb_forall in H2.
       intros a Ha. specialize (H2 a Ha). apply andb_prop in H2 as [A B].
       apply Nat.eqb_eq in A, B. auto.
-    + clear H1 H2. induction H as [|a t Ha Ht IH]; simpl in *; auto.
+    + intros Hi. assert (Hi' : needs_exactb m = true) by (destruct m; simpl in *; auto; discriminate).
+      rewrite Hi' in H2x. simpl in H2x. rewrite Forall_forall. rewrite forallb_forall in H2x.
+      intros a Ha. apply stored_exactb_sound. auto.
+    + clear H1 H2 H2x. induction H as [|a t Ha Ht IH]; simpl in *; auto.
       apply andb_prop in H3 as [H3 H4]. apply andb_prop in H3 as [H5 H6].
       repeat split; auto. apply stored_okb_sound; auto. apply IH; auto.
   - (* Call *) destruct (nth_error asm f); auto. apply stored_okb_sound; auto.
